@@ -118,6 +118,30 @@ def schedAlloc (s : Core) (app key node : String) : Option Core :=
 
 /-! ### releases requested by the RM (removeAllocation, termination type STOPPED_BY_RM / UNKNOWN, key given) -/
 
+/-- removeAllocationInternal: the application after the bound allocation `i` is removed -/
+def relApp (key : String) (i : CItem) (a : CApp) : CApp :=
+  let items := a.items.map (fun x => if x.key == key then { x with bound := false } else x)
+  if i.ph then
+    let phData := a.phData.map (fun d => if d.1 == i.tg then (d.1, d.2.1, d.2.2.1, d.2.2.2 + 1) else d)
+    let aph := prune (subX a.allocatedPh i.res)
+    -- the last placeholder is gone: progress the application
+    let st :=
+      if isZero (some aph) &&
+         ((a.state == "Completing" && !a.stateTimer) || a.state == "Failing" || a.state == "Resuming" ||
+          (isZero (some a.pending) && isZero (some a.allocated))) then
+        (if a.state == "Failing" then fireState a.state .fail
+         else if a.state == "Resuming" then fireState a.state .run
+         else fireState a.state .complete)
+      else a.state
+    -- a terminated application leaves the partition (terminated callback)
+    { a with items := items, allocatedPh := aph, phData := phData, state := st,
+             live := !(st == "Completed" || st == "Failed"),
+             log := if st != a.state then a.log ++ [st] else a.log }
+  else
+    let alloc := prune (subX a.allocated i.res)
+    let st := if isZero (some a.pending) && isZero (some alloc) then fireState a.state .complete else a.state
+    { a with items := items, allocated := alloc, state := st, log := if st != a.state then a.log ++ [st] else a.log }
+
 def releaseKey (s : Core) (app key : String) : Core :=
   match s.findApp app with
   | none => s
@@ -128,35 +152,20 @@ def releaseKey (s : Core) (app key : String) : Core :=
       -- (1) a bound allocation: application, node, queue, counters
       let s1 : Core :=
         if i.bound then
-          let sA := updApp s app (fun a =>
-            let items := a.items.map (fun x => if x.key == key then { x with bound := false } else x)
-            if i.ph then
-              let phData := a.phData.map (fun d => if d.1 == i.tg then (d.1, d.2.1, d.2.2.1, d.2.2.2 + 1) else d)
-              let aph := prune (subX a.allocatedPh i.res)
-              -- the last placeholder is gone: progress the application (removeAllocationInternal)
-              let st :=
-                if isZero (some aph) &&
-                   ((a.state == "Completing" && !a.stateTimer) || a.state == "Failing" || a.state == "Resuming" ||
-                    (isZero (some a.pending) && isZero (some a.allocated))) then
-                  (if a.state == "Failing" then fireState a.state .fail
-                   else if a.state == "Resuming" then fireState a.state .run
-                   else fireState a.state .complete)
-                else a.state
-              -- a terminated application leaves the partition (terminated callback)
-              { a with items := items, allocatedPh := aph, phData := phData, state := st,
-                       live := !(st == "Completed" || st == "Failed"),
-                       log := if st != a.state then a.log ++ [st] else a.log }
-            else
-              let alloc := prune (subX a.allocated i.res)
-              let st := if isZero (some a.pending) && isZero (some alloc) then fireState a.state .complete else a.state
-              { a with items := items, allocated := alloc, state := st, log := if st != a.state then a.log ++ [st] else a.log })
+          let a' := relApp key i a
+          let sA := updApp s app (fun _ => a')
           let sN := match s.findNode i.node with
             | none => sA
             | some _ => updNode sA i.node (fun n =>
                 { n with allocs := n.allocs.filter (·.key != key), allocated := prune (subX n.allocated i.res), available := addX n.available i.res })
           let sQ := if (s.findNode i.node).isSome && strictlyGreaterThanZero (some i.res) then
               updQueues sN (pathChain s a.queue) (fun q => { q with allocated := prune (subX q.allocated i.res) }) else sN
-          { sQ with allocations := sQ.allocations - 1, phAllocations := if i.ph then sQ.phAllocations - 1 else sQ.phAllocations }
+          -- a terminated application leaves its queue (terminated callback → Queue.RemoveApplication): what it still
+          -- holds is taken off the queues
+          let sT := if a'.live then sQ else
+              updQueues sQ (pathChain s a.queue) (fun q => { q with pending := decPendingRes q.pending a'.pending,
+                                                                    allocated := prune (subX (subX q.allocated a'.allocated) a'.allocatedPh) })
+          { sT with allocations := sT.allocations - 1, phAllocations := if i.ph then sT.phAllocations - 1 else sT.phAllocations }
         else s
       -- (2) RemoveAllocationAsk(key)
       match s1.findApp app with
